@@ -64,6 +64,22 @@ def tasks(tier):
                     hist(kind, "sync", True, s0, first)
                     hist(kind, "sync", False, s0, first)
                 hist("A", "sync", True, s0, first, allow=True)
+    if quick:
+        # second template (C01's T-guards machine), one fault anywhere, then a follow-up
+        for s0 in range(3):
+            for engine, rtc in (("sync", True), ("async", True)):
+                out.append({"kind": "A", "engine": engine, "rtc": rtc, "allow": False, "s0": s0, "first": 0, "listener": False,
+                            "send_events": ["go"], "calls": 2, "call_budgets": [1, 0], "policy": None, "actions": ["raise"],
+                            "follow": ["go"], "template": "guards", "event_names": ["go", "go_back", "hop"]})
+    if not quick:
+        # second template: the T-guards machine of C01 with generic action callbacks
+        G_EVENTS = ["go", "go_back", "hop"]
+        for first in range(3):
+            for s0 in range(3):
+                for engine, rtc in (("sync", True), ("sync", False), ("async", True)):
+                    out.append({"kind": "A", "engine": engine, "rtc": rtc, "allow": False, "s0": s0, "first": first, "listener": False,
+                                "send_events": ["go", "hop"], "calls": 2, "call_budgets": [2, 0, 0], "policy": "send-then-raise",
+                                "actions": ["send", "raise"], "follow": ["go", "go_back"], "template": "guards", "event_names": G_EVENTS})
     return out
 
 
@@ -75,9 +91,9 @@ BOUNDS = {
     "quick": "T-chain template. Scenario A: first call (event fixed per task) with either a raise, or a nested send {go,hop} optionally "
     "followed by a raise, each placed at any callback invocation (validator, guards, the 5 generic action callbacks; first, nested or queued "
     "transition; initial enter callback in the from-construction scenario), then an action-free follow-up call (go). Scenario C: two nested sends {go,hop} from the first event's own callbacks, then a follow-up. Scenario X: a BaseException (cancellation-like) raised at any invocation, then a follow-up. Scenario U: one nested send of an undeclared event name. Scenario B: two "
-    "consecutive calls that may each raise at any invocation, then an action-free call. Engines sync rtc (all pre-states, also "
+    "consecutive calls that may each raise at any invocation, then an action-free call. A second template (C01's T-guards machine) with one fault anywhere and a follow-up. Engines sync rtc (all pre-states, also "
     "allow_event_without_transition), sync non-rtc (pre-states a, c), all-async (pre-state a; construction).",
-    "thorough": "two follow-up calls, follow-up events {go,hop,tick}, a listener adding 3 more callbacks per transition, all pre-states on every engine.",
+    "thorough": "scenario A also on a second template (C01's T-guards machine: final state, three candidates, multi-event, internal, expression guard); two follow-up calls, follow-up events {go,hop,tick}, a listener adding 3 more callbacks per transition, all pre-states on every engine.",
 }
 OUTSIDE = "what happens to *queued* events when the failure is a BaseException (the engine deliberately clears the queue for Exception only; scenario X raises one without anything queued and only requires propagation, the state rule and a usable machine); more than 3 faults/sends per history; callbacks abandoned by a failed asyncio.gather may finish later (tolerated, see DESIGN 3.2 tolerance 3)"
 OBLIGATIONS = ["failed-call:Boom", "failed-call:TNA", "call-after-failure", "nested-send", "queued-event-ran", "from-construction"]
@@ -89,7 +105,8 @@ ASSUMPTIONS = [
 
 
 def run(ctx, params):
-    first = EVENTS[params["first"]]
+    names = params.get("event_names", EVENTS)
+    first = names[params["first"]]
     script_kw = {"budget": params["call_budgets"][0], "actions": tuple(params["actions"]), "send_events": tuple(params["send_events"]),
                  "values": "int", "policy": params["policy"]}
     follow = params["follow"]
@@ -100,13 +117,13 @@ def run(ctx, params):
 
         def choose(self, n, label="c"):
             if label == "call0":
-                return EVENTS.index(first)
+                return names.index(first)
             if label.startswith("call"):
-                return EVENTS.index(follow[ctx.choose(len(follow), label)])
+                return names.index(follow[ctx.choose(len(follow), label)])
             return ctx.choose(n, label)
 
     p = dict(params)
-    p["events"] = EVENTS
+    p["events"] = names
     if params.get("top_only"):
         p["where_top_only"] = True
     if params.get("base_exception"):
